@@ -2,6 +2,7 @@ package main
 
 import (
 	"fmt"
+	"os"
 	"go/token"
 	"go/types"
 	"sort"
@@ -602,6 +603,9 @@ func (fr *Frame) contractCall(ctx *callCtx, callee *ssa.Function, c *Contract) V
 	envPost := &evalEnv{e: e, st: st, old: pre, lookup: func(n string) (Val, bool) { v, ok := rn[n]; return v, ok }}
 	for _, en := range c.Ensures {
 		f := e.evalBool(en.expr, envPost)
+		if os.Getenv("GOVC_DEBUG") != "" {
+			fmt.Fprintf(os.Stderr, "ENSURES %s [%s] tag=%d inline=%v: %.200s\n", funcKey(callee), en.label, e.vc.curTag, e.vc.inline, f)
+		}
 		e.assumeIn(st, f)
 	}
 	e.usedContracts[funcKey(callee)] = true
